@@ -779,11 +779,12 @@ pub fn run(cfg: &Config) -> i32 {
 	});
 	total.merge(rep);
 
+	total.count("index_buckets_not_in_increasing_order(noted: representation detail, the order of reported positions is checked through the queries)", crate::oracle::objmodel::BUCKET_ORDER_ANOMALIES.load(std::sync::atomic::Ordering::Relaxed));
 	conclude(
 		cfg,
 		EvidenceMeta {
 			id: "C06",
-			rule: "a case is one operation history replayed from the empty object; exhaustive families enumerate every history up to the length bound over 1, 2 and 3 keys and every continuation of length <= 2 (thorough 3) from every start state of 3..5 (6) entries over 2 keys (each history counted once, distinct by construction); threshold histories: n distinct keys (3..449, around the capacities at which the index grows) or d duplicates of one key (2..200) followed by every tail of up to 3 pushes over an early key / a middle key / a new key and then one operation out of ~45 touching head, middle and the last five positions, every key class and every way of consuming a removal iterator; random histories are counted by a hash of their first 40 operations; after the last operation of every history prefix the object is compared with the ordered-list model (entries, result of the operation, 10 kinds of key query for every key and an absent key, index representation invariant through the hook); non-trivial = at least one operation",
+			rule: "a case is one operation history replayed from the empty object; exhaustive families enumerate every history up to the length bound over 1, 2 and 3 keys and every continuation of length <= 2 (thorough 3) from every start state of 3..5 (6) entries over 2 keys (each history counted once, distinct by construction); threshold histories: n distinct keys (3..449, around the capacities at which the index grows) or d duplicates of one key (2..200) followed by every tail of up to 3 pushes over an early key / a middle key / a new key and then one operation out of ~45 touching head, middle and the last five positions, every key class and every way of consuming a removal iterator; random histories are counted by a hash of their first 40 operations; after the last operation of every history prefix the object is compared with the ordered-list model (entries, result of the operation, 10 kinds of key query for every key and an absent key, index through the hook: one bucket per key, the positions of the buckets partition the entry positions and each sits under the key its entry carries); non-trivial = at least one operation",
 			exhaustive: false,
 			assumptions: vec![
 				"the model (harness/src/oracle/objmodel.rs) states the documented semantics; where the documentation is silent (remove_unique on duplicates removes all matching entries and reports the first two) the model follows the observable behaviour of the pinned tree".into(),
